@@ -338,21 +338,11 @@ impl Run {
     }
 }
 
-/// the longest message a `Frame::Message` without headers can carry within the frame limit (found with the codec)
+/// The longest message a `Frame::Message` without headers can carry: the limit is the protocol's (1 MiB of
+/// payload, Framing.tla), not whatever the encoder under test happens to accept; the payload of such a frame
+/// is one byte for the absent header map, eight for the length, then the message.
 fn max_message_len() -> usize {
-    use selium_protocol::MessageCodec;
-    use tokio_util::codec::Encoder;
-    static MAX: std::sync::OnceLock<usize> = std::sync::OnceLock::new();
-    *MAX.get_or_init(|| {
-        let mut l = 1024 * 1024usize;
-        loop {
-            let f = Frame::Message(MessagePayload { headers: None, message: Bytes::from(vec![b'x'; l]) });
-            if MessageCodec.encode(f, &mut bytes::BytesMut::new()).is_ok() {
-                return l;
-            }
-            l -= 1;
-        }
-    })
+    1024 * 1024 - 9
 }
 
 fn random_schedule(rng: &mut StdRng, k: u64, max_pubs: u64, max_subs: u64, max_items: u64, len: usize) -> Schedule {
